@@ -191,7 +191,7 @@ def m_lifecycle(tr):
                 bad.append(("last-event-differs", f"order {k}: last event {info_tuple(got[-1].order)[1:8]} vs info "
                             f"{info_tuple(info)[1:8]}"))
             for ev in got:
-                if ev.when != T(w.t):
+                if ev.when != w.now():
                     bad.append(("event-time", f"order {k}: event stamped {ev.when} at step {w.t}"))
         one = call(w.e.get_order_info(oid))
         if info_tuple(one) != info_tuple(info):
